@@ -263,7 +263,13 @@ def main_check(prop_id, modname, argv):
 
     # 5 search -------------------------------------------------------------------------------
     search_note = None
-    if (proof_broken or disagreements) and not violations:
+    known = load_known()
+
+    def fresh(vs):
+        """violations that are not listed known findings (a known finding must not mask a broken proof
+        or correspondence)"""
+        return [f for f in vs if match_known(prop_id, f, known) is None]
+    if (proof_broken or disagreements) and not fresh(violations):
         splan = mod.search_plan(tier, disagreements) if hasattr(mod, 'search_plan') else []
         if splan:
             sres = run_streams(modname, splan, seed + 7919, args.workers)
@@ -275,7 +281,6 @@ def main_check(prop_id, modname, argv):
         search_note = 'search ran %d extra cases' % sum(n for _, n, _ in splan) if splan else 'no search stream'
 
     # 6 classify --------------------------------------------------------------------------------
-    known = load_known()
     rdir = os.path.join(VERIF, 'evidence', 'replay')
     os.makedirs(rdir, exist_ok=True)
     for fn in os.listdir(rdir):            # replay files of earlier runs of this check are stale
@@ -305,7 +310,7 @@ def main_check(prop_id, modname, argv):
                        message=f.get('message'), signature=f.get('signature'), payload=f.get('replay')),
                   open(path, 'w'), indent=1, default=str)
         lines.append('VIOLATION property=%s replay=%s' % (prop_id, path))
-    if not violations and (proof_broken or disagreements):
+    if not fresh(violations) and (proof_broken or disagreements):
         n_viol += 1
         what = []
         if proof_broken:
